@@ -94,21 +94,27 @@ void MEDDLY::binary_operation::compute(const dd_edge &ar1,
 #ifdef ALLOW_OLD_BINARY_0_17_6
     if (new_style) {
         node_handle resp;
+        // the result edge may be one of the operand edges: do not write its
+        // edge value while the operands are still being read
+        edge_value resv;
         compute(resF->getMaxLevelIndex(), ~0,
                 ar1.getEdgeValue(), ar1.getNode(),
                 ar2.getEdgeValue(), ar2.getNode(),
-                res.setEdgeValue(), resp);
-        res.set(resp);
+                resv, resp);
+        res.set(resv, resp);
     } else {
         computeDDEdge(ar1, ar2, res, true);
    }
 #else
     node_handle resp;
+    // the result edge may be one of the operand edges: do not write its
+    // edge value while the operands are still being read
+    edge_value resv;
     compute(resF->getMaxLevelIndex(), ~0,
             ar1.getEdgeValue(), ar1.getNode(),
             ar2.getEdgeValue(), ar2.getNode(),
-            res.setEdgeValue(), resp);
-    res.set(resp);
+            resv, resp);
+    res.set(resv, resp);
 #endif
 #ifdef DEVELOPMENT_CODE
     resF->validateIncounts(true, __FILE__, __LINE__, getName());
@@ -129,11 +135,14 @@ void MEDDLY::binary_operation::computeTemp(const dd_edge &ar1,
         int toplevel = arg1F->isForRelations()
             ?  MXD_levels::topUnprimed(ar1.getLevel(), ar2.getLevel())
             :  MDD_levels::topLevel(ar1.getLevel(), ar2.getLevel());
+        // the result edge may be one of the operand edges: do not write its
+        // edge value while the operands are still being read
+        edge_value resv;
         compute(toplevel, ~0,
                 ar1.getEdgeValue(), ar1.getNode(),
                 ar2.getEdgeValue(), ar2.getNode(),
-                res.setEdgeValue(), resp);
-        res.set(resp);
+                resv, resp);
+        res.set(resv, resp);
     } else {
         computeDDEdge(ar1, ar2, res, false);
     }
